@@ -1,6 +1,7 @@
 import L4.Drv.Route
 import L4.Drv.Conn
 import L4.Drv.Match
+import L4.Drv.Codec
 open L4 L4.Drv
 
 def dispatch (line : String) : String :=
@@ -8,6 +9,7 @@ def dispatch (line : String) : String :=
   | "route" :: rest => (doRoute.run rest).1
   | "conn" :: rest => (doConn.run rest).1
   | "match" :: rest => (doMatch.run rest).1
+  | "codec" :: rest => (doCodec.run rest).1
   | _ => "bad-op"
 
 partial def loop (h : IO.FS.Stream) (out : IO.FS.Stream) : IO Unit := do
